@@ -22,7 +22,8 @@ from bubus import BaseEvent, EventBus  # noqa: E402
 
 LEVEL = 'exploration'
 RULE = ('(a) every (declared result type, returned value) pair from 15 declared types x their hand-labelled value lists (conforming, coercible, non-conforming, None, exception object, '
-        'BaseEvent); (b) every sequence of <= 3 handler outcomes over {1, "a", None, {a:1}, {a:2,b:3}, [1], [2,3], raises, returns-event} (quick: all of length <= 2 plus all length-3 sequences '
+        'BaseEvent), and for 6 (thorough: all 14) types every value again under 5 declaration styles (generic parameter, class field, override in a subclass of a generic parent, inherited, '
+        'instance keyword) x 3 instantiation histories (fresh classes, parent instantiated first, self-parent-self); (b) every sequence of <= 3 handler outcomes over {1, "a", None, {a:1}, {a:2,b:3}, [1], [2,3], raises, returns-event} (quick: all of length <= 2 plus all length-3 sequences '
         'over a 6-letter sub-alphabet) x raise_if_any x raise_if_none x include in {default, all, is-int} x the six accessors (flat_dict also x raise_if_conflicts), compared with a reference '
         'model. non-trivial = the case has a non-default flag, a declared type, or mixes two kinds of outcome; distinct = distinct case descriptors')
 ASSUMPTIONS = ['the reference model of the accessors is written from the README: include filters recorded results, values come back in handler order, the first recorded error object is re-raised '
@@ -97,6 +98,33 @@ class Other(BaseEvent):
     pass
 
 
+TY: dict[str, Any] = {'int': int, 'str': str, 'bool': bool, 'float': float, 'bytes': bytes, 'list[int]': list[int], 'dict[str,int]': dict[str, int], 'int|None': int | None,
+                      'Optional[str]': Optional[str], 'Union[int,str]': Union[int, str], "Literal['a','b']": Literal['a', 'b'], 'Model': M, 'list[Model]': list[M],
+                      'tuple[int,str]': tuple[int, str]}
+# how the result type is declared, and which classes were instantiated before (class-level caches make the history matter)
+STYLES = ['generic', 'field', 'override_of_generic_parent', 'inherited_from_generic_parent', 'instance_kwarg']
+ORDERS = ['fresh', 'parent_first', 'self_parent_self']
+
+
+def make_classes(style, T):
+    """fresh classes per case: returns (event class, parent class or None, kwargs for the instance)"""
+    U = str if T is not str else int
+    if style == 'generic':
+        return type('E', (BaseEvent[T],), {'__module__': __name__}), None, {}
+    if style == 'field':
+        return type('E', (BaseEvent,), {'__module__': __name__, '__annotations__': {'event_result_type': Any}, 'event_result_type': T}), None, {}
+    if style == 'override_of_generic_parent':
+        parent = type('Parent', (BaseEvent[U],), {'__module__': __name__})
+        return type('E', (parent,), {'__module__': __name__, '__annotations__': {'event_result_type': Any}, 'event_result_type': T}), parent, {}
+    if style == 'inherited_from_generic_parent':
+        parent = type('Parent', (BaseEvent[T],), {'__module__': __name__})
+        return type('E', (parent,), {'__module__': __name__}), parent, {}
+    if style == 'instance_kwarg':
+        parent = type('Parent', (BaseEvent[U],), {'__module__': __name__})
+        return type('E', (BaseEvent,), {'__module__': __name__}), parent, {'event_result_type': T}
+    raise KeyError(style)
+
+
 # label: 'ok' conforming (stored value must equal), 'co' coercible (either outcome; a completed value must conform), 'bad' non-conforming
 TYPES: dict[str, tuple[type, Any, list]] = {
     'none': (EvNone, None, [('ok', 1), ('ok', 'a'), ('ok', [1, 'x']), ('ok', {'k': object}), ('ok', 1.5), ('ok', b'z')]),
@@ -135,10 +163,13 @@ def _run_handlers(evcls, fns):
     return go
 
 
-def check_type_case(tname, label, value, special=None):
+def check_type_case(tname, label, value, special=None, style=None, order='fresh'):
     """returns list of violations for one (declared type, returned value) pair"""
     from ..engine import run_plain
     evcls, conforms, _ = TYPES[tname]
+    parent, ekw = None, {}
+    if style is not None:
+        evcls, parent, ekw = make_classes(style, TY[tname])
     out = []
     box = {}
     if special == 'exception':
@@ -155,16 +186,23 @@ def check_type_case(tname, label, value, special=None):
         with warnings.catch_warnings():
             warnings.simplefilter('ignore')
             bus = EventBus(name='T')
-            bus.on(evcls, h)
-            ev = bus.dispatch(evcls())
+            bus.on(evcls.__name__, h)
+            if order in ('parent_first',) and parent is not None:
+                parent()
+            if order == 'self_parent_self':
+                first = bus.dispatch(evcls(**ekw))
+                await first
+                if parent is not None:
+                    await bus.dispatch(parent())
+            ev = bus.dispatch(evcls(**ekw))
             await ev
-            box['r'] = list(ev.event_results.values())
+            box['r'] = [r for r in ev.event_results.values()]
             await bus.stop(timeout=0, clear=True)
 
     run_plain(go)
     rs = box['r']
-    tags = dict(part='types', type=tname, label=special or label)
-    desc = f'type {tname} value {value!r}'
+    tags = dict(part='types', type=tname, label=special or label, style=style or 'module_generic', order=order)
+    desc = f'type {tname} (declared via {style or "module-level generic"}, history {order}) value {value!r}'
     if len(rs) != 1:
         return [V('wrong_number_of_results', f'{desc}: {rs}', **tags)]
     r = rs[0]
@@ -384,13 +422,23 @@ def _sequences(tier):
     return out
 
 
-def _type_cases():
+def _type_cases(tier='quick'):
     cases = []
     for tname, (cls, conf, vals) in TYPES.items():
         for i, (label, _) in enumerate(vals):
             cases.append(('type', tname, i, None))
         for sp in ('none', 'exception', 'event'):
             cases.append(('type', tname, -1, sp))
+    # declaration styles x instantiation histories (class-level caches): every value of every declared type
+    for tname in TY:
+        if tier != 'thorough' and tname not in ('int', 'str', 'list[int]', 'int|None', "Literal['a','b']", 'Model'):
+            continue
+        vals = TYPES[tname][2]
+        for style, order in itertools.product(STYLES, ORDERS):
+            if order != 'fresh' and style in ('generic', 'field'):
+                continue
+            for i in range(len(vals)):
+                cases.append(('type', tname, i, None, style, order))
     return cases
 
 
@@ -398,9 +446,9 @@ def _work(case):
     seams.boot()
     try:
         if case[0] == 'type':
-            _, tname, i, sp = case
+            tname, i, sp = case[1], case[2], case[3]
             label, value = TYPES[tname][2][i] if i >= 0 else ('', None)
-            v = check_type_case(tname, label, value, sp)
+            v = check_type_case(tname, label, value, sp, *(case[4:6] if len(case) > 4 else ()))
             return case, 1, 1, v, None
         n, nt, v = check_sequence(case[1])
         return case, n, nt, v, None
@@ -410,7 +458,7 @@ def _work(case):
 
 
 def run_custom(tier, seed, classify, jobs):
-    cases = _type_cases() + [('seq', s) for s in _sequences(tier)]
+    cases = _type_cases(tier) + [('seq', s) for s in _sequences(tier)]
     k = seed % len(cases)
     cases = cases[k:] + cases[:k]
     agg = dict(scenarios=len(cases), executions=0, points=0, transitions=0, traces=set(), triggered=0, verdicts={}, violations=[], n_violations=0, errors=[], known={},
@@ -466,9 +514,9 @@ def run_custom(tier, seed, classify, jobs):
 def replay_custom(body):
     case = body['scenario']['case']
     if case[0] == 'type':
-        _, tname, i, sp = case
+        tname, i, sp = case[1], case[2], case[3]
         label, value = TYPES[tname][2][i] if i >= 0 else ('', None)
-        v = check_type_case(tname, label, value, sp)
+        v = check_type_case(tname, label, value, sp, *(case[4:6] if len(case) > 4 else ()))
     else:
         _, _, v = check_sequence(tuple(case[1]))
     hit = [x for x in v if x['clause'] == body['clause']]
